@@ -28,6 +28,7 @@ const (
 	valA = 101
 	valB = 202
 	valC = 303
+	valR = 707
 )
 
 var (
@@ -36,7 +37,7 @@ var (
 	binA  = buildA()
 	binB  = buildB()
 	binC  = buildC()
-	bins  = [nMods][]byte{binA, binB, binC, buildM(), buildN(), nil /* H is a host module */, buildG()}
+	bins  = [nMods][]byte{binA, binB, binC, buildM(), buildN(), nil /* H is a host module */, buildG(), buildT(), buildR()}
 	bgctx = context.Background()
 )
 
@@ -217,6 +218,60 @@ func buildG() []byte {
 	return m.Encode()
 }
 
+// buildT: the table owner of graph TR. Exports a 3-slot funcref table, calls through every slot (call_t0..2), and has
+// the two stores that do not need R's code: put2(ref) (host-mediated) and clr0() (T.tab[0] = null).
+func buildT() []byte {
+	m := &wb.Module{}
+	t0 := m.Type(i32, i32)
+	m.Tables = []wb.Table{{Elem: wb.FuncRef, Lim: wb.Limits{Min: 3, Max: 3, HasMax: true}}}
+	for i := int32(0); i < 3; i++ {
+		m.ExportFunc(fmt.Sprintf("call_t%d", i), m.AddFunc(i32, i32, nil, (&wb.Asm{}).LocalGet(0).I32Const(i).CallIndirect(t0, 0).B))
+	}
+	m.ExportFunc("put2", m.AddFunc(fref, nil, nil, (&wb.Asm{}).I32Const(2).LocalGet(0).TableSet(0).B))
+	m.ExportFunc("clr0", m.AddFunc(nil, nil, nil, (&wb.Asm{}).I32Const(0).RefNull(wb.FuncRef).TableSet(0).B))
+	m.Exports = append(m.Exports, wb.Export{Name: "tab", Kind: wb.KindTable, Idx: 0})
+	nameExports(m)
+	return m.Encode()
+}
+
+// buildR: the referencer of graph TR. ONE function r that references lead to, and many ways of making references to
+// it: at instantiation an ACTIVE element segment with a duplicate entry (T.tab[0..1] = [r, r]), a funcref global
+// initialised with ref.func r and a PASSIVE segment of refBurst duplicates; afterwards mk (one ref.func + table.set),
+// burst (refBurst of them in a loop), init (table.init from the passive segment), mkg (global.set ref.func r) and
+// getref (the reference goes through the host). Every reference is a separate record of R's module engine; the
+// earlier ones must stay valid whatever is made later.
+func buildR() []byte {
+	m := &wb.Module{}
+	m.Imports = append(m.Imports, wb.Import{Module: "T", Name: "tab", Kind: wb.KindTable, Table: wb.Table{Elem: wb.FuncRef, Lim: wb.Limits{Min: 3}}})
+	t0 := m.Type(i32, i32)
+	m.Tables = []wb.Table{{Elem: wb.FuncRef, Lim: wb.Limits{Min: 1, Max: 1, HasMax: true}}} // table index 1 (private; used by call_glob)
+	addPrivateMemory(m, mR)
+	r := m.AddFunc(i32, i32, nil, valueBody(mR, valR))
+	glob := m.AddGlobal(wb.FuncRef, true, wb.CRefFunc(r))
+	m.ExportFunc("r", r)
+	m.ExportFunc("mk", m.AddFunc(nil, nil, nil, (&wb.Asm{}).I32Const(2).RefFunc(r).TableSet(0).B))
+	// burst: for i := refBurst; i != 0; i-- { T.tab[2] = ref.func r }
+	burst := (&wb.Asm{}).I32Const(refBurst).LocalSet(0).Loop(wb.Void).
+		I32Const(2).RefFunc(r).TableSet(0).
+		LocalGet(0).I32Const(1).Op(0x6b).LocalTee(0).BrIf(0).End()
+	m.ExportFunc("burst", m.AddFunc(nil, nil, []byte{wb.I32}, burst.B))
+	m.ExportFunc("init", m.AddFunc(nil, nil, nil, (&wb.Asm{}).I32Const(1).I32Const(0).I32Const(2).TableInit(1, 0).B))
+	m.ExportFunc("mkg", m.AddFunc(nil, nil, nil, (&wb.Asm{}).RefFunc(r).GlobalSet(glob).B))
+	m.ExportFunc("getref", m.AddFunc(nil, fref, nil, (&wb.Asm{}).RefFunc(r).B))
+	m.ExportFunc("call_t0", m.AddFunc(i32, i32, nil, (&wb.Asm{}).LocalGet(0).I32Const(0).CallIndirect(t0, 0).B))
+	m.ExportFunc("call_glob", m.AddFunc(i32, i32, nil, (&wb.Asm{}).I32Const(0).GlobalGet(glob).TableSet(1).LocalGet(0).I32Const(0).CallIndirect(t0, 1).B))
+	dup := make([]uint32, refBurst)
+	for i := range dup {
+		dup[i] = r
+	}
+	m.Elems = []wb.Elem{
+		{Mode: 0, TableIdx: 0, Offset: wb.CI32(0), Funcs: []uint32{r, r}},
+		{Mode: 1, Funcs: dup},
+	}
+	nameExports(m)
+	return m.Encode()
+}
+
 // hostState is what H's three Go closures capture. Nothing else references it once the harness dropped H, so its
 // finalizer tells whether the closures were collected.
 type hostState struct {
@@ -306,6 +361,8 @@ var probeFns = [nMods][]string{
 	{"rd", "call_ld", "call_ld_t"}, // N: own load, M.ld through the import, M.ld through N's table slot
 	{},                             // H: a host module has no guest-callable probes of its own
 	{"call_f1", "call_f2", "call_f3", "call_t"}, // G: H's closures through the imports and through G's table slot; mode 1: the closure panics with an error
+	{"call_t0", "call_t1", "call_t2"},           // T: call_indirect through every slot of its exported table (R's references)
+	{"r", "call_t0", "call_glob"},               // R: own function, through the imported table, through its funcref global
 }
 
 // slots a call site reads (for classification)
@@ -313,6 +370,7 @@ var siteSlots = map[string][]int{
 	"A.call_t": {sAt}, "A.call_glob": {sAg}, "A.reenter": {sAt},
 	"B.call_at": {sAt}, "B.call_pt": {sBt}, "B.call_glob": {sBg}, "B.reenter": {sAt, sBt},
 	"C.call_pt": {sCt}, "C.reenter": {sCt},
+	"T.call_t0": {sTt0}, "T.call_t1": {sTt1}, "T.call_t2": {sTt2}, "R.call_t0": {sTt0}, "R.call_glob": {sRg},
 }
 
 // ---------------------------------------------------------------- world
@@ -420,6 +478,8 @@ func newWorld(test bool, eng int, noCache bool, need [nMods]bool, order int, hos
 	compile(mN)
 	compile(mH)
 	compile(mG)
+	compile(mT)
+	compile(mR)
 	return w
 }
 
@@ -693,6 +753,24 @@ func (w *world) do(o op) (out string) {
 			return "wrong:the instantiation that must fail succeeded"
 		}
 		return "inst-failed:" + outcome(nil, err)
+	case kRefMake:
+		switch o.X {
+		case rmHost:
+			r, out := w.call(mR, "getref")
+			if !strings.HasPrefix(out, "v:") {
+				return out
+			}
+			if len(r) != 1 || r[0] == 0 {
+				return "err:getref returned no reference (" + out + ")"
+			}
+			_, out = w.call(mT, "put2", r[0])
+			return out
+		case rmClear0:
+			_, out := w.call(mT, "clr0")
+			return out
+		}
+		_, out := w.call(mR, [...]string{rmSet: "mk", rmBurst: "burst", rmInit: "init", rmGlobal: "mkg"}[o.X])
+		return out
 	case kStore:
 		d := storeDefs[o.X]
 		if d.Guest {
